@@ -290,7 +290,7 @@ def main(tier, seed, replay, jobs, scale):
         import json
         cases = [tuple(json.load(open(replay))["replay"]["case"])]
     else:
-        n = int((480 if tier == "quick" else 3000) * scale)
+        n = int((480 if tier == "quick" else 12000) * scale)
         cases = [(seed, i, tier) for i in range(n)]
     par.absorb(run, par.run_cases(run_case, cases, jobs))
     run.assumptions += ["directory-only changes do not make diff return 2; symlink time-stamps are not recorded",
